@@ -24,6 +24,7 @@ from __future__ import annotations
 
 import json
 import math
+import random
 import re
 import warnings
 from fractions import Fraction as F
@@ -37,6 +38,8 @@ RENDER = "rresult"
 PREAMBLE_F = ("From SV Require Import C15.Oks C15.Frames.\nFrom Coq Require Import List QArith.\n"
               "Import ListNotations.\nOpen Scope Q_scope.\n")
 RENDER_F = "rfresult"
+PREAMBLE_A = ("From SV Require Import C15.Oks C15.Contract.\nFrom Coq Require Import List QArith.\n"
+              "Import ListNotations.\nOpen Scope Q_scope.\n")
 ATOL, RTOL = 1e-12, 1e-9          # float64 paths
 SEL_F22 = "oks_npr_ne_1"
 SEL_F51 = "match_zero_gt"
@@ -563,6 +566,30 @@ def oracle_oks(c, impl, out, flags, rng):
                     v4 = pair(i, p4)
                     if v4 is None or v4 > base + eps:
                         return (f"moving predicted keypoint {k} farther increases oks[{i}][{j}]: {base} -> {v4}", None)
+            # (round 6, c15_oks_monotone_all) SEVERAL predicted keypoints farther at once (along the ray from the
+            # target, or to NaN = infinitely far) never increases oks; own rng so the other draws are unchanged
+            r2 = random.Random(c.get("sub", 0) * 7919 + i * 31 + j)
+            p5, changed = [list(x) for x in p], 0
+            for kk in vis:
+                u = r2.random()
+                if u < 0.25:
+                    p5[kk] = [None] * c["n_ed"]
+                    changed += 1
+                elif u < 0.75 and visible(p[kk]):
+                    lam = r2.choice([F(9, 8), F(3, 2), F(2), F(7)])
+                    p5[kk] = [a + lam * (b - a) for a, b in zip(g[kk], p[kk])] if d2(g[kk], p[kk]) else \
+                        [g[kk][0] + F(r2.choice([1, 5, 24]), 8)] + list(g[kk][1:])
+                    changed += 1
+            if changed >= 2:
+                v5 = pair(i, p5)
+                if v5 is None or v5 > base + eps:
+                    return (f"moving {changed} predicted keypoints farther / to NaN increases oks[{i}][{j}]: {base} -> {v5}", None)
+            # (c15_oks_one_iff) oks = 1 exactly when every visible gt keypoint has a present prediction at distance 0
+            hits = [visible(p[kk]) and d2(g[kk], p[kk]) == 0 for kk in vis]
+            if all(hits) and abs(base - 1) > eps:
+                return (f"every visible gt keypoint is predicted exactly but oks[{i}][{j}] = {base} != 1", None)
+            if any(not visible(p[kk]) for kk in vis) and base > 1 - 1 / len(vis) + eps:
+                return (f"a visible gt keypoint has no prediction but oks[{i}][{j}] = {base} > 1 - 1/{len(vis)}", None)
     # translation of both poses
     if n_gt and n_pr:
         big = rng.random() < 0.4          # image-sized translations (float32: up to 2^12 so that k/8 stays exact)
@@ -592,6 +619,23 @@ def oracle_oks(c, impl, out, flags, rng):
                 for b, j in enumerate(pp):
                     if not close(r[1][a][b], M[i][j], ta, tr_):
                         return (f"reordering instances does not permute the matrix at gt {i} pr {j}", None)
+    # (round 6, c15_oks_keypoint_reorder) reordering the KEYPOINTS of every pose, the stddev vector with them, leaves
+    # every entry unchanged (float summation order changes: tolerance)
+    if n_gt and n_pr and c["n_nodes"] >= 2 and (can_matrix or n_pr == 1):
+        r3 = random.Random(c.get("sub", 0) * 104729 + 17)
+        kp = list(range(c["n_nodes"]))
+        r3.shuffle(kp)
+        if all(len(x) == c["n_nodes"] for x in gts + prs):
+            c2 = dict(c)
+            if c["sd"] is not None and c["sd"][0] == "v":
+                c2["sd"] = ["v", [c["sd"][1][k] for k in kp]]
+            r = impl.oks([[g[k] for k in kp] for g in gts], [[p[k] for k in kp] for p in prs], c2)
+            if r[0] == "raises":
+                return (f"keypoint-permuted input raises {r[1]}", None)
+            for i in range(n_gt):
+                for j in range(n_pr):
+                    if dom[i] and not close(r[1][i][j], M[i][j], max(ta, 1e-12), max(tr_, 1e-9)):
+                        return (f"reordering keypoints by {kp} changes oks[{i}][{j}]: {M[i][j]} -> {r[1][i][j]}", None)
     return None
 
 
@@ -969,6 +1013,29 @@ def strip(c):
     return d
 
 
+def contract_term(c, out):
+    """Coq term `acase` = (input, REAL answer) for Contract.arun, or None when the call has no answer to check
+    (raised / not a matcher).  The checker is the validity contract of c15_hungarian_answer[_inf] /
+    c15_match_answer_contract; optimality is relative to the references proved in C15/Assign.v."""
+    k = c["kind"]
+    pair = lambda rc: f"({core.cnat(rc[0])}, {core.cnat(rc[1])})"
+    if k == "hunginf" and isinstance(out, tuple):
+        return f"AHungInf {cmatrix(c['C'])} {core.clist(list(zip(out[0], out[1])), pair)}"
+    if k == "hung" and isinstance(out, tuple):
+        con = "AHungT" if c["n"] > c["m"] else "AHung"     # n > m: coqc transposes the original matrix / swaps the pairs
+        return f"{con} {core.clist(c['C'], lambda r: core.clist(r, core.cq))} {core.clist(list(zip(out[0], out[1])), pair)}"
+    if k == "match" and out and out[0] == "ok":
+        if any(g is None or p is None for g, p, _ in out[1]) or any(g is None for g in out[2]):
+            return None                                    # already reported by oracle_match
+        try:
+            ms = [f"({core.cnat(g)}, {core.cnat(p)}, {core.cq(F(float(o)))})" for g, p, o in out[1]]
+        except (ValueError, OverflowError):
+            return "AMatch 1%nat 0%nat [] 0 [] []"         # NaN / inf OKS reported for a pair: rejected (false)
+        return (f"AMatch {core.cnat(len(c['gts']))} {core.cnat(len(c['prs']))} {cmatrix(c['M'])} {core.cq(c['thr'])} "
+                f"{core.clist(ms)} {core.clist(out[2], core.cnat)}")
+    return None
+
+
 def eval_model(cases, flags):
     """Model values in case order: Oks.run for single calls, Frames.frun for frame lists."""
     single = [i for i, c in enumerate(cases) if c["kind"] != "frames"]
@@ -1003,6 +1070,7 @@ def check(run: core.Run) -> int:
     model = eval_model(cases, flags)
     disagree, dist, nfail = 0, {}, 0
     stats = {"oks_entries": 0, "oks_mid": 0, "match_pairs": 0}
+    answers = []
     for c, m in zip(cases, model):
         dist[c["kind"]] = dist.get(c["kind"], 0) + 1
         run.case(enc(strip(c)), nontrivial(c))
@@ -1010,6 +1078,13 @@ def check(run: core.Run) -> int:
             diff, bad, out = eval_case(c, m, impl, flags, run.rng)
         except Exception as e:
             diff, bad, out = None, (f"harness/implementation error {type(e).__name__}: {e}", None), None
+        if c["kind"] in ("hung", "hunginf", "match"):
+            try:
+                t = contract_term(c, out)
+            except Exception:
+                t = None
+            if t is not None:
+                answers.append((c, t, out))
         if c["kind"] == "oks" and out and out[0] == "ok":
             vals = [v for r in out[1] for v in r]
             stats["oks_entries"] += len(vals)
@@ -1046,6 +1121,21 @@ def check(run: core.Run) -> int:
             run.proof_broken.append(f"correspondence C15 ({c['kind']}): {diff}; case {json.dumps(enc(strip(c)))[:800]}")
     run.obligation("correspondence: Oks.run / Frames.frun (Coq, vm_compute) == evaluation.py / tracking/utils.py (/repo) on every case",
                    disagree == 0, f"{disagree} disagreements")
+    # contract stage: the REAL answers of hungarian_matching / match_instances are checked by the Coq checkers of
+    # C15/Contract.v (hypothesis of c15_hungarian_answer, c15_hungarian_answer_inf, c15_match_answer_contract)
+    rejected = 0
+    if answers:
+        verdicts = core.coq_eval_sharded(PREAMBLE_A, [t for _, t, _ in answers], "arun", "racase", shard=120, jobs=12)
+        for (c, t, out), ok in zip(answers, verdicts):
+            stats["contract_" + c["kind"]] = stats.get("contract_" + c["kind"], 0) + 1
+            if ok is not True and ok != "true":
+                rejected += 1
+                run.violation("failing-input", {"case": enc(strip(c)), "impl": str(out)[:2000],
+                                                "oracle": "the Coq contract checker (Contract.arun: one-to-one, conservation, "
+                                                          "threshold / no infinite pair, optimal w.r.t. the proved reference) "
+                                                          "rejects the real answer"})
+    run.obligation("contract: Contract.arun (Coq, vm_compute) accepts every real answer of hungarian_matching / match_instances",
+                   rejected == 0, f"{rejected} of {len(answers)} answers rejected")
     run.coverage.update({
         "input_distribution": dist, "disagreements": disagree, "oracle_failures": nfail, "stats": stats,
         "corpus_cases": len(corpus), "code_behaviour": flags,
